@@ -222,7 +222,16 @@ func report(id string, cfg *PropConfig, w *World, reps []*FuncReport, tier strin
 	for _, rep := range reps {
 		funcs = append(funcs, rep.Key)
 		if rep.Unsupported != "" {
-			undecided = append(undecided, rep.Key+": "+rep.Unsupported)
+			// The function is under contract and its obligations were generated and discharged on
+			// the unchanged tree (otherwise it would not be claimed).  If they can no longer even be
+			// generated (annotation refers to code that changed shape, or the body left the
+			// supported subset), the contract is no longer established: reported as a failed
+			// obligation without input, not as a pass and not silently as undecided.
+			vo := &Obligation{Name: rep.Key + "#vc-generation", Func: rep.Key, Kind: "vcgen", Text: rep.Unsupported,
+				Result: &SolveResult{Status: "unknown", Outputs: map[string]string{"govc": rep.Unsupported}}}
+			total++
+			failed = append(failed, vo)
+			failedRep[vo] = nil
 		}
 		for _, a := range rep.Assumes {
 			assumes[a] = true
